@@ -325,6 +325,10 @@ pub fn verbose_message(seed: usize, storage: bool, out: &mut Vec<u8>) {
 
 /// the C07 / C08 / C09 bulk families; `prefix` is "c07", "c08" or "c09"
 pub fn run_bulk_families(ctx: &Ctx, prefix: &str, is_async: bool) {
+    run_bulk_selected(ctx, prefix, is_async, &["len_sweep", "long_streams", "default_capacity", "disturbed"])
+}
+
+pub fn run_bulk_selected(ctx: &Ctx, prefix: &str, is_async: bool, which: &[&str]) {
     let tier = ctx.tier;
     let who = if is_async { "async reader" } else { "blocking reader" };
     let filters: Vec<(&'static str, Option<ProcessedDltFilterConfig>)> = crate::p04_consume::filter_configs().into_iter().take(4).collect();
@@ -342,7 +346,7 @@ pub fn run_bulk_families(ctx: &Ctx, prefix: &str, is_async: bool) {
         }
     };
     // (1) every declared length
-    {
+    if which.contains(&"len_sweep") {
         let lens: Vec<usize> = match tier {
             Tier::Quick => (4..=9300).chain((9301..65_536).filter(|l| l % 11 == 0 || (l + 40) % 4096 < 80 || (l + 40) % 10_240 < 80 || *l >= 65_400)).collect(),
             Tier::Thorough => (4..=65_535).collect(),
@@ -372,7 +376,7 @@ pub fn run_bulk_families(ctx: &Ctx, prefix: &str, is_async: bool) {
         }));
     }
     // (2) long streams against the minimal-capacity buffers: every phase of the buffer boundary
-    {
+    if which.contains(&"long_streams") {
         let sizes: Vec<usize> = match tier {
             Tier::Quick => vec![8, 33, 100, 298, 1000, 4104, 40_000],
             Tier::Thorough => vec![8, 9, 33, 100, 255, 256, 298, 1000, 4095, 4104, 8200, 16_384, 40_000, 65_535],
@@ -417,7 +421,7 @@ pub fn run_bulk_families(ctx: &Ctx, prefix: &str, is_async: bool) {
         }));
     }
     // (3) the default constructor: streams longer than its 10 MiB buffer
-    {
+    if which.contains(&"default_capacity") {
         let sizes: Vec<usize> = match tier {
             Tier::Quick => vec![14, 100, 4104],
             Tier::Thorough => vec![8, 14, 100, 298, 4104, 40_000],
@@ -458,7 +462,7 @@ pub fn run_bulk_families(ctx: &Ctx, prefix: &str, is_async: bool) {
         }).chunk(1));
     }
     // (4) disturbance-heavy schedules on large messages
-    {
+    if which.contains(&"disturbed") {
         let lens = [300usize, 4200, 12_000, 65_535];
         let pats = [Pattern { chunk: 1, disturb_every: 1 }, Pattern { chunk: 1, disturb_every: 2 }, Pattern { chunk: 1, disturb_every: 0 }, Pattern { chunk: 7, disturb_every: 1 }, Pattern { chunk: 4096, disturb_every: 1 }];
         let sp = Space::new(&[lens.len(), 2, pats.len()]);
